@@ -92,7 +92,7 @@ theorem C14_accepted_chunk (bodyOk : Nat → Bytes → Bool) (mode : OnPartial) 
       ch.hashed = (if ch.ty = 2 then UInt8.ofNat 1 :: (Leb.ulebEncode ch.body.length ++ ch.body)
                    else UInt8.ofNat ch.ty :: (Leb.ulebEncode ch.data.length ++ ch.data)) ∧
       ch.hash = Sha256.sha256 ch.hashed ∧ ch.hash.take 4 = ch.checksum ∧
-      (ch.ty ≠ 2 → ch.body = ch.data) ∧ (ch.ty = 2 → Inflate.inflate ch.data = some ch.body) := by
+      (ch.ty ≠ 2 → ch.body = ch.data) ∧ (ch.ty = 2 → Inflate.inflateExact ch.data = some ch.body) := by
   have hne' : file'.isEmpty = false := by cases file' <;> simp_all
   obtain ⟨ch, rest, more, h1, h2, h3, h4, h5, h6⟩ := loadFile_ok_first_read h hne'
   exact ⟨ch, rest, more, h1, h2, rfl, h3, h4, h5, h6⟩
